@@ -209,7 +209,11 @@ def run(ctx, rep):
         pass
     OP = lambda args: ('OPER', tuple(args))
     same = child(3)
-    for label, kids in (('distinct', (child(1), child(2))), ('identical', (same, same)), ('unary', (child(4),))):
+    bare = lambda tag: Obj(f'bare{tag}', constants=frozenset(), variables=frozenset(), predicates=frozenset(), atomics=frozenset({f'A{tag}'}), operators=(), quantifiers=(),
+                           substitute=lambda pn, po, t=tag: ('SUB', t, pn, po))       # a sentence letter: no parameters, predicates, operators or quantifiers
+    for label, kids in (('distinct', (child(1), child(2))), ('identical', (same, same)), ('unary', (child(4),)),
+                        ('left operand without parameters', (bare(5), child(6))), ('right operand without parameters', (child(7), bare(8))),
+                        ('neither operand with parameters', (bare(9), bare(10)))):
         ops = Operands(kids)
         ops.__srcclass__ = (m, ClassRef(LEX, 'Operated'))
         ops.operator, ops.operands, ops.lhs, ops.rhs = OP, tuple(kids), kids[0], kids[-1]
